@@ -17,8 +17,9 @@ import progs
 PROP = "C10"
 
 
-def record_for(prog, backend, pre, root, via_batch, use_model, root_dir):
-    """fresh world; memoize `pre` keys (top-level calls); call root; return (record, model record, trace keys)"""
+def record_for(prog, backend, pre, root, via_batch, use_model, root_dir, also=()):
+    """fresh world; memoize `pre` keys (top-level calls); call root; return (record, model record, trace keys).
+    `also`: keys of sub-calls whose own records are appended to the root's (they must be store-independent too)"""
     w = progs.RunWorld(prog, backend=backend, root=root_dir, use_model=use_model)
     try:
         for (f, a, c) in pre:
@@ -30,6 +31,11 @@ def record_for(prog, backend, pre, root, via_batch, use_model, root_dir):
             w.op(["call", f, a, c if c else "i", False, False])
         tr = [(x[0], x[1], x[2] or 0) for x in w.trace()]
         real, mout = w.op(["memento", f, a, c])
+        for (g, b, d) in also:
+            r2, m2 = w.op(["memento", g, b, d])
+            real += " || %s(%s,%s): %s" % (g, b, d, r2)
+            if mout is not None:
+                mout += " || %s(%s,%s): %s" % (g, b, d, m2)
         return real, mout, tr
     finally:
         w.close()
@@ -37,9 +43,11 @@ def record_for(prog, backend, pre, root, via_batch, use_model, root_dir):
 
 def main(chk, replay=None):
     if replay is not None:
-        r0, _, _ = record_for(replay["program"], replay["backend"], [], tuple(replay["root"]), False, False, None)
+        also = [tuple(x) for x in replay.get("also", [])]
+        replay["program"]["fns"] = {int(k): v for k, v in replay["program"]["fns"].items()}
+        r0, _, _ = record_for(replay["program"], replay["backend"], [], tuple(replay["root"]), False, False, None, also)
         r1, _, _ = record_for(replay["program"], replay["backend"], [tuple(x) for x in replay["pre"]], tuple(replay["root"]),
-                              replay.get("via_batch", False), False, None)
+                              replay.get("via_batch", False), False, None, also)
         bad = r0 != r1
         print(json.dumps(dict(still_fails=bad, cold=r0, with_pre=r1)))
         return 1 if bad else 0
@@ -53,17 +61,40 @@ def main(chk, replay=None):
     rng = chk.rng
     nprog = 14 if quick else 150
     reported = 0
-    for _ in range(nprog):
-        prog = progs.gen_program(rng, nfns=rng.randint(3, 6), hidden_rate=0.03, res_rate=0.3, guard_rate=0.5)
+    Z = [0, 0]
+    leaf = lambda: dict(explicit=False, stmts=[], const=1, **{"raise": [0, 0, 0, 0]})
+    corpus = [
+        # a batch with repeated elements: every subset memoized beforehand must leave the recorded order unchanged
+        dict(fns={1: leaf(), 2: dict(explicit=False, stmts=[["batch", 1, [1, 2, 0, 3, 2], "i", False, False, False, False, Z]], const=2,
+                                     **{"raise": [0, 0, 0, 0]})}),
+        # a chain of depth 4: with a memory cache the mementos of inner calls are live objects shared between calls
+        dict(fns={1: leaf(), 2: dict(explicit=False, stmts=[["call", 1, 0, "i", False, False, False, False, Z]], const=2, **{"raise": [0, 0, 0, 0]}),
+                  3: dict(explicit=False, stmts=[["call", 2, 0, "i", False, False, False, False, Z], ["call", 1, 1, "i", False, False, False, False, Z]],
+                          const=3, **{"raise": [0, 0, 0, 0]}),
+                  4: dict(explicit=False, stmts=[["call", 3, 0, "i", False, False, False, False, Z], ["call", 2, 1, "i", False, False, False, False, Z]],
+                          const=4, **{"raise": [0, 0, 0, 0]})}),
+    ]
+    for pi in range(nprog + 2 * len(corpus)):
+        directed = pi < 2 * len(corpus)
+        if directed:
+            prog = json.loads(json.dumps(corpus[pi // 2]))
+            prog["fns"] = {int(k): v for k, v in prog["fns"].items()}
+        else:
+            prog = progs.gen_program(rng, nfns=rng.randint(3, 6), hidden_rate=0.03, res_rate=0.3, guard_rate=0.5)
         # make sure some parent calls the same function twice with arguments of different parity
         top = max(prog["fns"])
-        if top >= 3 and rng.random() < 0.6:
+        if not directed and top >= 3 and rng.random() < 0.6:
             g = rng.randint(2, top - 1)
             prog["fns"][top]["stmts"] += [["call", g, 0, "i", False, False, True, False, [0, 0]],
                                            ["call", g, 1, "i", False, False, True, False, [0, 0]]]
         root = (max(prog["fns"]), rng.choice([0, 1, 2]), rng.choice([0, 0, 1]))
         backend = rng.choice(["memory", "fs", "fs+cache"])
-        cold, mcold, tr = record_for(prog, backend, [], root, False, proof_ok, chk.tmpdir())
+        if directed:
+            root = (max(prog["fns"]), 1, 0)
+            backend = ["fs+cache", "fs"][pi % 2]
+        _, _, tr0 = record_for(prog, backend, [], root, False, False, chk.tmpdir())
+        also = [k for k in dict.fromkeys(tr0) if k != root][:6]
+        cold, mcold, tr = record_for(prog, backend, [], root, False, proof_ok, chk.tmpdir(), also)
         subs = [k for k in dict.fromkeys(tr) if k != root]
         if proof_ok and mcold != cold:
             chk.correspondence_break("provenance-record", dict(program=prog, root=root, backend=backend, real=cold, model=mcold))
@@ -84,14 +115,14 @@ def main(chk, replay=None):
                            "record": cold, "trace": tr, "source": progs.render(prog, "replay")})
         n = min(len(subs), 6)
         subs = subs[:n]
-        if quick or n > 6:
+        if (quick and not directed) or n > 6:
             subsets = [tuple(s for s in subs if rng.random() < 0.5) for _ in range(10)]
         else:
             subsets = [c for r in range(n + 1) for c in itertools.combinations(subs, r)]
         other = "fs" if backend == "memory" else "memory"
         trials = [(list(s), False, backend) for s in subsets] + [([], True, backend), (list(subs), True, backend), ([], False, other)]
         for pre, via_batch, be in trials:
-            rec, mrec, _ = record_for(prog, be, pre, root, via_batch, proof_ok, chk.tmpdir())
+            rec, mrec, _ = record_for(prog, be, pre, root, via_batch, proof_ok, chk.tmpdir(), also)
             chk.case([prog, root, pre, via_batch, be], nontrivial=bool(subs),
                      sample=dict(root=root, pre=pre, via_batch=via_batch, backend=be, record=rec))
             chk.count("mode:" + ("batch" if via_batch else "single"))
@@ -105,7 +136,7 @@ def main(chk, replay=None):
                     chk.violation({"what": "provenance of %s differs when %s was memoized beforehand%s" % (
                         root, pre, " (batch)" if via_batch else ""),
                         "class": {"clause": "provenance-store-independent", "via_batch": via_batch},
-                        "program": prog, "backend": be, "root": root, "pre": pre, "via_batch": via_batch,
+                        "program": prog, "backend": be, "root": root, "pre": pre, "via_batch": via_batch, "also": also,
                         "cold_record": cold, "record": rec, "source": progs.render(prog, "replay")})
         if reported >= 4:
             break
